@@ -27,7 +27,8 @@ fn ulp_nbrs(x: f32) -> Vec<f32> {
 
 /// structured + random floats of [0,1]: thresholds of every curve with neighbours, binade edges, subnormals
 pub fn unit_floats(r: &mut Rng, n: usize) -> Vec<f32> {
-    let mut v: Vec<f32> = Vec::new();
+    // the negative zero is a value of [0, 1] too (its sign bit must not leak into any curve)
+    let mut v: Vec<f32> = vec![-0.0, -0.0, -0.0];
     let thr: [f32; 24] = [0.0, 1.0, 0.5, 1.0 / 12.0, 0.01, 0.003_162_277_6, 0.018_053_97, 4.5 * 0.018_053_97, 0.003_041_282_5, 12.92 * 0.003_041_282_5,
         0.04045, 0.0031308, 0.081, 0.25, 0.75, 0.1, 0.9, 1e-3, 1e-5, 1e-10, 1e-20, 1e-38, 0.999, 0.5599107];
     for t in thr { for x in ulp_nbrs(t) { if x >= 0.0 && x <= 1.0 { v.push(x); } } }
